@@ -83,3 +83,14 @@ Print Assumptions axis_map_decreasing_outside_range_refuted.
 Theorem axis_map_conflict_refused : forall k x x' r, ~ x == x' -> get_validated_map ((k, x) :: (k, x') :: r) = Err ValueError.
 Proof. exact ProofsAxisMap.validate_conflict. Qed.
 Print Assumptions axis_map_conflict_refused.
+
+(* ---- UFO 1/2 -> 3 conversion of kerning groups (ModelKerning.v: convertUFO1OrUFO2KerningToUFO3Kerning as repaired by c422dfc):
+   every renamed group gets its own new name, none of them an existing group name, on both sides together *)
+From FV Require C19.ModelKerning C19.ProofsKerning.
+Theorem renamed_groups_distinct : forall kerning groups glyphSet k g r1 r2,
+  ModelKerning.convert kerning groups glyphSet = Ok (k, g, r1, r2) ->
+  NoDup (map snd r1 ++ map snd r2) /\
+  (forall v, In v (map snd r1 ++ map snd r2) -> ~ In v (map fst groups)) /\
+  NoDup (map fst r1) /\ NoDup (map fst r2).
+Proof. exact ProofsKerning.renamed_groups_distinct. Qed.
+Print Assumptions renamed_groups_distinct.
